@@ -13,6 +13,7 @@ Inductive step :=
 | SDestroy
 | SQuery
 | SReq (hdr : N) (c : ctx) (o : op) (a : ans)
+| SReqA (hdr : N) (c : ctx) (o : op) (a : ans)       (* the same request through the AsyncFileSystem entry point *)
 | SSaveRestore (ver : N) (fresh_default : bool) (reattach : list (N * N * path * mount_ans)).
 
 Record cfg := mkCfg { cf_gmap : option mapping; cf_rm : bool; cf_no_open : bool; cf_no_opendir : bool;
@@ -88,6 +89,9 @@ Definition run_step (c : cfg) (s : vfs) (st : step) : vfs * list N * bool :=
          fst (fst (o_idmap o)); snd (fst (o_idmap o)); snd (o_idmap o); 0], false)
   | SReq hdr cx o a =>
     let '(r, ev) := vfs_request s hdr cx o a in
+    let out := ser_outcome ser_reply r in (s, out ++ ser_events ev, is_panic out)
+  | SReqA hdr cx o a =>
+    let '(r, ev) := vfs_request_async s hdr cx o a in
     let out := ser_outcome ser_reply r in (s, out ++ ser_events ev, is_panic out)
   | SSaveRestore ver dflt l =>
     let saved := if ver =? 1 then as_v1 (vfs_save s) else vfs_save s in
